@@ -154,11 +154,14 @@ pub struct Script {
     /// instead of the standard greeting the peer sends exactly these bytes (segmented by `seg`) and closes
     #[serde(default)]
     pub greeting: Option<B>,
+    /// the event receiver is not polled before the end of the script (a slow consumer)
+    #[serde(default)]
+    pub lazy_events: bool,
 }
 
 impl Script {
     pub fn new(steps: Vec<Step>) -> Script {
-        Script { sched_seed: 1, seg: SegPattern::Whole, replies: Vec::new(), steps, max_write: None, picture: None, broken_pipe: true, greeting: None }
+        Script { sched_seed: 1, seg: SegPattern::Whole, replies: Vec::new(), steps, max_write: None, picture: None, broken_pipe: true, greeting: None, lazy_events: false }
     }
 }
 
@@ -1106,10 +1109,16 @@ async fn drive(script: &Script, connect: Connect) -> Observation {
 
     // event collector
     let collected: Arc<Mutex<(Vec<Ev>, bool)>> = Arc::new(Mutex::new((Vec::new(), false)));
+    let gate = Arc::new(tokio::sync::Notify::new());
+    let lazy = script.lazy_events;
     let collector = {
         let collected = collected.clone();
         let h = h.clone();
+        let gate = gate.clone();
         tokio::spawn(async move {
+            if lazy {
+                gate.notified().await;
+            }
             loop {
                 let e = events.next().await;
                 let mut c = collected.lock().unwrap();
@@ -1222,6 +1231,7 @@ async fn drive(script: &Script, connect: Connect) -> Observation {
     }
 
     // epilogue: let everything drain, then require every request to resolve in virtual time
+    gate.notify_one();
     h.lock().unwrap().release_all();
     settle(&h, &done).await;
     for _ in 0..3 {
